@@ -309,8 +309,41 @@ def run(prog, tier):
                 return env[m['decl']['id']]
             return None
 
+        def rd_mask(i, depth=0):
+            """i is `f.rdstate()` (mask: all bits) or `f.rdstate() & M` / a const local initialised with one of these -> mask, else None"""
+            m = w.nodes[w.strip(i, 'all')]
+            if i in uses and uses[i][0] == 'member' and uses[i][1] == 'rdstate':
+                return 7
+            if m['id'] in uses and uses[m['id']][0] == 'member' and uses[m['id']][1] == 'rdstate':
+                return 7
+            if m['k'] == 'DeclRefExpr' and m['decl'].get('dk') == 'local' and depth < 3:
+                from paths import local_init as _li3
+                ini = _li3(w, m['decl']['id'])
+                return rd_mask(ini, depth + 1) if ini is not None else None
+            if m['k'] in ('BinaryOperator', 'CXXOperatorCallExpr') and (m.get('op') == '&'):
+                kids = m['ch'] if m['k'] == 'BinaryOperator' else m.get('args', [])
+                if len(kids) == 2:
+                    from paths import const_value as _cv3
+                    for x, y in ((kids[0], kids[1]), (kids[1], kids[0])):
+                        mk = rd_mask(x, depth + 1)
+                        cv = _cv3(w, y)
+                        if mk is not None and cv is not None:
+                            return mk & int(cv)
+            return None
+
         def a(i):
             n = w.nodes[i]
+            # the state word compared with goodbit:  (f.rdstate() & (failbit | badbit)) == goodbit   [libstdc++: badbit 1, eofbit 2, failbit 4]
+            if n['k'] in ('BinaryOperator', 'CXXOperatorCallExpr') and n.get('op') in ('==', '!='):
+                kids = n['ch'] if n['k'] == 'BinaryOperator' else n.get('args', [])
+                if len(kids) == 2:
+                    from paths import const_value as _cv4
+                    for x, y in ((kids[0], kids[1]), (kids[1], kids[0])):
+                        mk = rd_mask(x)
+                        cv = _cv4(w, y)
+                        if mk is not None and cv is not None and int(cv) == 0 and (mk & 5) == 5:
+                            isfailed = failed in (True, 'open')
+                            return (not isfailed) if n.get('op') == '==' else isfailed
             # a local flag compared with null / used as a condition
             if n['k'] == 'BinaryOperator' and n['op'] in ('==', '!='):
                 for x, y in ((n['ch'][0], n['ch'][1]), (n['ch'][1], n['ch'][0])):
